@@ -211,6 +211,18 @@ static double cval(int ck, double b, int j, unsigned n, const double *x, double 
             if (g) g[i] = 2 * t;
         }
         return v - b;
+    case 3:                     /* outside of a ball (non-convex feasible set): b - |x - 0.1 j|^2 <= 0 */
+        for (i = 0; i < n; ++i) {
+            double t = x[i] - 0.1 * j;
+            v += t * t;
+            if (g) g[i] = -2 * t;
+        }
+        return b - v;
+    case 4: {                   /* wavy (neither convex nor concave): sin(5 x0 + 2 x1) + 0.4 x1^2 - b <= 0 */
+        double x1 = n > 1 ? x[1] : 0.0, t = 5.0 * x[0] + 2.0 * x1 + 0.1 * j;
+        if (g) { for (i = 0; i < n; ++i) g[i] = 0; g[0] = 5.0 * cos(t); if (n > 1) g[1] = 2.0 * cos(t) + 0.8 * x1; }
+        return sin(t) + 0.4 * x1 * x1 - b;
+    }
     default:
         if (g) for (i = 0; i < n; ++i) g[i] = 0;
         if (g) g[(unsigned) j % n] = 1;
@@ -348,6 +360,47 @@ static void precond(unsigned n_, const double *x_, const double *v, double *vpre
     }
 }
 
+/* munge hooks (spec key munge=1): the copy hook returns a fresh clone of the data record, the destroy hook releases one
+   reference; a ledger counts what was handed to the library and what came back, and what happened INSIDE nlopt_optimize */
+#define MAXLEDGER 4096
+static void *led_ptr[MAXLEDGER]; static int led_in[MAXLEDGER], led_out[MAXLEDGER], led_clone[MAXLEDGER]; static int led_n = 0;
+static int in_optimize = 0, hooks_in_optimize = 0, led_unknown = 0;
+static int led_find(void *p) { int i; for (i = 0; i < led_n; ++i) if (led_ptr[i] == p) return i; return -1; }
+static void led_handin(void *p, int clone)
+{
+    int i;
+    if (!p) return;
+    i = led_find(p);
+    if (i < 0 && led_n < MAXLEDGER) { i = led_n++; led_ptr[i] = p; led_in[i] = led_out[i] = 0; led_clone[i] = clone; }
+    if (i >= 0) ++led_in[i];
+}
+static void *munge_destroy_hook(void *p)
+{
+    int i;
+    if (in_optimize) ++hooks_in_optimize;
+    if (!p) return NULL;        /* releasing "no data" (e.g. the previous, unset objective data) */
+    i = led_find(p);
+    if (i < 0) ++led_unknown; else ++led_out[i];
+    return NULL;
+}
+static void *munge_copy_hook(void *p)
+{
+    fdata_t *c;
+    if (in_optimize) ++hooks_in_optimize;
+    if (!p) return NULL;
+    c = (fdata_t *) hc_keep(malloc(sizeof(fdata_t)));
+    memcpy(c, p, sizeof(fdata_t));
+    led_handin(c, 1);
+    return c;
+}
+static void led_report(void)
+{
+    int i, unreleased = 0, multi = 0;
+    for (i = 0; i < led_n; ++i) { if (led_out[i] < led_in[i]) ++unreleased; if (led_out[i] > led_in[i]) ++multi; }
+    fprintf(out, "H pointers=%d unreleased=%d released_too_often=%d unknown_released=%d hook_calls_inside_optimize=%d\n",
+            led_n, unreleased, multi, led_unknown, hooks_in_optimize);
+}
+
 /* legacy (nlopt_func_old) adapters */
 static double objective_old(int n, const double *x, double *grad, void *data) { return objective((unsigned) n, x, grad, data); }
 static double sconstraint_old(int n, const double *x, double *grad, void *data) { return sconstraint((unsigned) n, x, grad, data); }
@@ -378,6 +431,7 @@ static int parse_inj(const char *s, long *ks, double *vs)
 
 static fdata_t fdatas[3 * MAXC + 2];
 
+static int use_munge = 0;
 static int add_constraints(nlopt_opt o, const char *spec, int role, int *nfd)
 {
     /* spec: items separated by ';' :  s:<ck>:<tolhex>:<bhex>:<j>   or  v:<m>:<ck>:<tollist|->:<bhex>:<j0> */
@@ -387,6 +441,7 @@ static int add_constraints(nlopt_opt o, const char *spec, int role, int *nfd)
     strncpy(buf, spec, sizeof buf - 1); buf[sizeof buf - 1] = 0;
     for (item = strtok_r(buf, ";", &save); item; item = strtok_r(NULL, ";", &save)) {
         fdata_t *d = &fdatas[(*nfd)++];
+        if (use_munge) led_handin(d, 0);
         char *f[8]; int nf = 0; char *s2 = NULL, *t;
         nlopt_result r;
         for (t = strtok_r(item, ":", &s2); t && nf < 8; t = strtok_r(NULL, ":", &s2)) f[nf++] = t;
@@ -516,6 +571,10 @@ static void one_run(const char *line)
     if (!o) { fprintf(out, "R create-failed\nEND\n"); return; }
     top = o;
     fdatas[0].magic = 0xC0FFEEu; fdatas[0].role = 0; fdatas[0].vec = 0;
+    use_munge = (int) getint(line, "munge", 0);
+    led_n = 0; hooks_in_optimize = 0; led_unknown = 0; in_optimize = 0;
+    if (use_munge) nlopt_set_munge(o, munge_destroy_hook, munge_copy_hook);
+    if (use_munge && !getint(line, "noobj", 0)) led_handin(&fdatas[0], 0);
     if (!getint(line, "noobj", 0)) {
         if (getint(line, "pre", 0)) {
             if (getint(line, "max", 0)) nlopt_set_precond_max_objective(o, objective, precond, &fdatas[0]);
@@ -584,7 +643,9 @@ static void one_run(const char *line)
 #ifdef RUN_OOM
             if (r == 0) { oom_fail_at = getint(line, "failalloc", -1); oom_count = 0; oom_fired = 0; oom_armed = 1; }
 #endif
+            in_optimize = 1;
             ret = nlopt_optimize(target, x, &optf);
+            in_optimize = 0;
 #ifdef RUN_OOM
             oom_armed = 0;
             if (r == 0) fprintf(out, "O allocations=%ld fired=%ld\n", oom_count, oom_fired);
@@ -603,6 +664,7 @@ static void one_run(const char *line)
     }
     if (target != o) nlopt_destroy(target);
     nlopt_destroy(o);
+    if (use_munge) led_report();
     fprintf(out, "END\n");
 }
 
